@@ -252,6 +252,19 @@ func verifyFunction(prog *Program, db *SpecDB, con *Contract) (res *FuncResult) 
 	if len(f.rets) == 0 {
 		vc.unsupported = append(vc.unsupported, "function has no reachable return")
 	}
+	for _, p := range con.Props {
+		if p == "C12" {
+			// summary obligation: the translated body (with every inlined callee) contains no call
+			// to a local clock, random source or the process environment; individual reachable
+			// sites, if any, have their own obligations
+			goal := "true"
+			if len(vc.nondetSites) > 0 {
+				goal = "false"
+			}
+			vc.addObl(&Obligation{Name: con.Name + "/deterministic/no-local-source", Kind: "determinism", Props: con.Props,
+				PC: "true", Goal: goal, Src: fmt.Sprintf("calls to time.Now/rand/os.Getenv in the executed body: %v", vc.nondetSites)})
+		}
+	}
 	vc.reveal(con.Reveal)
 	vc.finalizeAxioms()
 	res.Obligations = vc.obls
